@@ -66,6 +66,9 @@ def construct_worker(analysis: Analysis, spec) -> dict:
         kwargs[o] = Sym(("root", "opt_" + o), ty)
     if "persistence" in kwargs:
         st.add_fact(("truthy", kwargs["persistence"].key()))
+    # a frame of the chain that has a parameter named like a given option must receive the caller's value,
+    # not fall back to its own default (a sibling class that forgot to forward the keyword)
+    it.trace_defaults = set(opts)
     # the handler registry tables are looked up through the context version
     try:
         outs = it.instantiate(st, cls, pos, kwargs, analysis.p.classes[cls].node)
@@ -118,7 +121,8 @@ def construct_worker(analysis: Analysis, spec) -> dict:
             else:
                 d = dest.get(o)
                 honoured[o] = d is not None and d.key() == want
-        rows.append({"kind": kind, "honoured": honoured, "witness": describe_path(out, 16)})
+        shadowed = sorted({e.name for e in s.events if e.kind == "default"})
+        rows.append({"kind": kind, "honoured": honoured, "shadowed": shadowed, "witness": describe_path(out, 16)})
     return {"cls": cls, "label": label, "opts": list(opts), "rows": rows}
 
 
@@ -297,6 +301,9 @@ def run(analysis: Analysis, tier: str) -> RuleResult:
                 passed = any(r["honoured"].get("protocol_version (passed through)") for r in good)
                 res.add("C18-R1", f"{cls} / a usable protocol_version is stored as given ({label})", passed, "", "some constructor path stores the caller's version string")
             for r in good:
+                for sh in r["shadowed"]:
+                    fn, _, o = sh.rpartition(":")
+                    res.add("C18-R1", f"{cls} / option {o} reaches every constructor frame that has a parameter of that name", False, "", f"{fn} has its own `{o}` parameter, which falls back to its default although the caller passed {o}: what that frame configures ignores the option", r["witness"])
                 r["honoured"].pop("protocol_version (passed through)", None)
                 for o, ok in r["honoured"].items():
                     res.add("C18-R1", f"{cls} / option {o} takes effect ({label})", ok, "", "value reaches its destination attribute unchanged" if ok else f"option {o} is accepted but its value does not reach the place it configures (dead parameter)", r["witness"] if not ok else None)
